@@ -148,6 +148,9 @@ func verifyFunc(p *Prog, db *ContractDB, fc *FuncContract, prop string) (u *Unit
 	for _, r := range fc.Assume {
 		x.assume(st, x.evalBool(env, r.Expr))
 	}
+	for _, r := range fc.Scope {
+		x.assume(st, x.evalBool(env, r.Expr))
+	}
 	for _, ow := range fc.Owns {
 		sel, ok := ow.Expr.(*ast.SelectorExpr)
 		if !ok {
@@ -345,7 +348,20 @@ func sweepTargets(p *Prog, db *ContractDB, prop string) []*ssa.Function {
 			keys[cc.Key] = append(keys[cc.Key], cc)
 		}
 	}
-	if len(keys) == 0 {
+	// every caller of a function whose contract has a pre-condition is a unit too (modularity:
+	// the pre-condition is an obligation at each call site in the repository)
+	reqKeys := map[string]bool{}
+	for _, fc := range db.FuncList {
+		if fc.Extern || len(fc.Requires) == 0 {
+			continue
+		}
+		for _, pr := range fc.Props {
+			if pr == prop || prop == "" {
+				reqKeys[fc.Key] = true
+			}
+		}
+	}
+	if len(keys) == 0 && len(reqKeys) == 0 {
 		return nil
 	}
 	x := newExec(p, db)
@@ -376,6 +392,9 @@ func sweepTargets(p *Prog, db *ContractDB, prop string) []*ssa.Function {
 					if callsiteInScope(cc, pkgPath) && (cc.InFunc == nil || cc.InFunc.MatchString(shortFn(fn))) {
 						found = true
 					}
+				}
+				if reqKeys[k] {
+					found = true
 				}
 			}
 		}
